@@ -496,7 +496,9 @@ func sortedDependencies(node cypher.SyntaxNode) []string {
 		return nil
 	}
 
-	_ = walk.Cypher(node, walk.NewSimpleVisitor[cypher.SyntaxNode](func(node cypher.SyntaxNode, _ walk.VisitorHandler) {
+	// The structural walk also visits the variables of node and relationship patterns: a pattern predicate
+	// such as `(n)-->()` depends on n just as `n.name = 'a'` does.
+	_ = walk.CypherStructural(node, walk.NewSimpleVisitor[cypher.SyntaxNode](func(node cypher.SyntaxNode, _ walk.VisitorHandler) {
 		if variable, isVariable := node.(*cypher.Variable); isVariable && variable.Symbol != "" && variable.Symbol != cypher.TokenLiteralAsterisk {
 			dependencies[variable.Symbol] = struct{}{}
 		}
